@@ -616,7 +616,9 @@ func c11Run(ctx *core.Ctx) {
 				ctx.Cap("wall-clock cap in the wildcard family")
 				return
 			}
+			wgSpecial = true
 			run(j, tm)
+			wgSpecial = false
 		}
 	}
 	wgModels(ctx, func(i int, tm gen.Tagged) bool { return run(len(extra)+i, tm) })
